@@ -33,19 +33,10 @@ theorem src_guards_strict :
   refine ⟨fun hard st => ?_, fun hard => ?_⟩ <;> cases hard <;> exact ⟨rfl, by simp only [textMode, richMode]; decide⟩
 
 open VaxisModel.Gen.SurfaceFacts in
-/-- The shape-fixed facts of vxfw.go, center.go and textfield.go the model transcribes (K/E = range
-key/value, L0,L1,… = the other locals in order of declaration: renaming a variable changes nothing). -/
+/-- The shape-fixed facts of textfield.go the model transcribes (L0,L1,… = the locals in order of declaration:
+renaming a variable changes nothing).  Round 4: NewSurface, WriteCell, render and Center.Draw are no longer pinned here —
+their regenerated bodies are EXECUTED and proved equal to the model in `Props/C14Body.lean` (`*_body_eq_model`). -/
 theorem facts_surface :
-    newSurfaceLen = "(int(P1)*int(P0))" ∧
-    writeCellReject = ["(P0>=R.Size.Width)", "(P1>=R.Size.Height)"] ∧
-    writeCellIndex = "((int(P1)*int(R.Size.Width))+int(P0))" ∧
-    renderFacts = ["range R.Buffer", "L0:=(K/int(R.Size.Width))", "L1:=(K%int(R.Size.Width))", "P0.SetCell(L1,L0,E)",
-      "sort.Slice R.Children", "less (R.Children[L2].ZIndex>R.Children[K].ZIndex)", "range R.Children",
-      "L3:=P0.New(int(E.Origin.Col),int(E.Origin.Row),int(E.Surface.Size.Width),int(E.Surface.Size.Height))",
-      "E.Surface.render(L3,P1)"] ∧
-    centerFacts = ["panic if (P0.Max.HasUnboundedHeight()||P0.Max.HasUnboundedWidth())", "child ctx Max:P0.Max",
-      "L3:=vxfw.NewSurface(P0.Max.Width,P0.Max.Height,R)", "L4:=((P0.Max.Width-L1.Size.Width)/2)",
-      "L5:=((P0.Max.Height-L1.Size.Height)/2)", "L3.AddChild(int(L4),int(L5),L1)"] ∧
     textFieldFacts = ["if ((P0.Max.Width==0)||(P0.Max.Height==0))", "vxfw.NewSurface(P0.Max.Width,1,R)",
       "L0.WriteCell(L2,0,L7)", "L2+=uint16(L6.Width)", "L1+=1"] := by
   decide +kernel
